@@ -4,7 +4,8 @@ from props import forest_common as fc
 
 THEOREMS = ['C05_sum_visitor_is_max', 'C05_sum_visitor_packed', 'C05_resolve_in_derivs', 'C05_resolve_lex_optimal',
             'C05_sort_key_meaning', 'C05_optimal', 'C05_optimal_uniform', 'C05_empty_precedence', 'C05_invert',
-            'C05_none', 'C05_deterministic', 'C05_example', 'C05_empty_precedence_bites', 'C05_optimal_graph']
+            'C05_none', 'C05_deterministic', 'C05_example', 'C05_empty_precedence_bites', 'C05_optimal_graph',
+            'C05_optimal_graph_walk', 'C05_optimal_graph_example']
 GEN_DEPS = ['ForestSortKey']
 RULE = ('random acyclic ambiguous grammars (2-4 non-terminals, 1-3 alternatives, signed rule priorities `r.2:`, terminal '
         'priorities `A.3:`, colliding/overlapping string terminals, nullable alternatives, and in 60% of the grammars `x?`, '
@@ -172,9 +173,91 @@ TIE_CORPUS = [
 ]
 
 
+# dynamic lexers, greedy multi-character %ignore, terminals that may swallow ignorable characters: fixed corpus
+WS_CORPUS = [
+    ('start: w B\nw: A | AS\nA: "a"\nAS.2: /a\\s/\nB: "b"\n%ignore /\\s+/\n', ['a b', 'a  b', 'a   b']),
+    ('start: w B\nw: x | y\nx: A\ny.3: AS\nA: "a"\nAS: /a /\nB: "b"\n%ignore / +/\n', ['a b', 'a  b', 'a   b']),
+    ('start: w w\nw.1: A | AS\nw2: B\nA.1: "a"\nAS.-2: /a ?/\nB: "b"\n%ignore / +/\n', ['a a', 'a  a', ' a  a ']),
+    ('start: A v | AS v\nv: B | SB\nA: "a"\nAS.1: /a /\nB: "b"\nSB.2: / b/\n%ignore / +/\n', ['a b', 'a  b', 'a   b', 'ab']),
+]
+
+
+_WS_CACHE = {}
+
+
+def oracle_ws(g, text, lexer, mode):
+    """optimum over the derivations enumerated on the position graph (tokens tile the text, ignored matches between
+    them), with the grammar-written priorities; returns a message or None"""
+    from lark.exceptions import LarkError
+    key = (g, lexer, mode)
+    if key not in _WS_CACHE:
+        if len(_WS_CACHE) > 64:
+            _WS_CACHE.clear()
+        try:
+            pn = fc.mk(g, lexer, 'forest', 'normal')
+            _WS_CACHE[key] = (pn, fc.mk(g, lexer, 'resolve', mode), fc.tables(pn))
+        except LarkError:
+            _WS_CACHE[key] = None
+    if _WS_CACHE[key] is None:
+        return None
+    pn, pr, (rules, terms) = _WS_CACHE[key]
+    ign = [str(n) for n in pn.ignore_tokens]
+    try:
+        ds, cyc = fc.enumerate_derivations_ignore(rules, terms, 'start', text, [], ign_terms=ign)
+        ds_scan, _ = fc.enumerate_derivations_ignore(rules, terms, 'start', text, [], scanner=lexer, ign_terms=ign)
+    except fc.TooMany:
+        return None
+    if cyc:
+        return None
+    try:
+        tree = fc.with_timeout(20, pr.parse, text)
+    except LarkError:
+        return ('input rejected although it has %d derivations' % len(ds_scan)) if ds_scan else None
+    d = fc.tree_to_posderivation(tree, rules)
+    if d is None or d not in ds:
+        return 'returned tree %r is not a derivation of the input (%d derivations)' % (fc.show_tree(tree), len(ds))
+    if fc.mixed_empty_possible(rules) or not ds_scan:
+        return None
+
+    def pri(x):
+        return (terms[x[1]]['prio'] if x[0] == 'T' else (rules[x[1]]['prio'] or 0) + sum(pri(c) for c in x[2]))
+    all_p = [pri(x) for x in ds_scan]
+    if mode == 'normal' and pri(d) < max(all_p):
+        return 'priority of the returned tree is %d, maximum over %d derivations is %d' % (pri(d), len(ds_scan), max(all_p))
+    if mode == 'invert' and pri(d) > min(all_p):
+        return 'priority=invert: priority of the returned tree is %d, minimum over %d derivations is %d' % (
+            pri(d), len(ds_scan), min(all_p))
+    return None
+
+
+def ws_stream(ctx):
+    import itertools
+    rng = ctx.rng
+    work = [(g, ts) for g, ts in WS_CORPUS]
+    for _ in range(ctx.scale(45, 300) * (3 if ctx.widen else 1)):
+        g = fc.gen_ws_grammar(rng)
+        texts = [''.join(t) for n in range(1, 6) for t in itertools.product('ab ', repeat=n)]
+        rng.shuffle(texts)
+        work.append((g, texts[:30]))
+    for g, texts in work:
+        for text in texts:
+            for lexer in ('dynamic', 'dynamic_complete'):
+                for mode in ('normal', 'invert'):
+                    w = dict(g=g, text=text, lexer=lexer, mode=mode, ws=True)
+                    try:
+                        msg = oracle_ws(g, text, lexer, mode)
+                    except fc.Timeout:
+                        ctx.violation('timeout', w, True, 'parse did not finish in 20 s')
+                        continue
+                    ctx.count('ignore-priority', nontrivial=False, lexer=lexer)
+                    if msg:
+                        ctx.violation('oracle-ws:' + msg.split(' ')[0], w, True, msg)
+
+
 def correspond(ctx):
     from lark.exceptions import LarkError
     rng = ctx.rng
+    ws_stream(ctx)
     for w in EXOTIC:
         msg = oracle(w['g'], w['text'], w['lexer'], w['mode'])
         ctx.count('regression-corpus', nontrivial=False)
@@ -352,6 +435,11 @@ def replay(ctx, case):
     w = case.get('witness', case)
     if 'g' not in w:
         return False
+    if w.get('ws'):
+        try:
+            return oracle_ws(w['g'], w['text'], w['lexer'], w['mode']) is not None
+        except fc.Timeout:
+            return True
     if w.get('kind') == 'order':
         outs = [fc.run_in_subprocess([dict(g=w['g'], amb='order', lexer=w['lexer'], prio=w['mode'], text=w['text'])], sd)[0]
                 for sd in range(4)]
